@@ -12,6 +12,9 @@ import GdcVerif.Lemmas.MqcIdeal
 import GdcVerif.Lemmas.MqcRoundtrip2
 import GdcVerif.Lemmas.T1Tables
 import GdcVerif.Lemmas.T1Model
+import GdcVerif.Lemmas.T1Lock
+import GdcVerif.Lemmas.T1LockStyles
+import GdcVerif.Lemmas.T1Termall
 /-!
   C20 — JPEG 2000 building blocks are exact inverses: RCT, 5/3 DWT, MQ coder, EBCOT T1.
 
@@ -22,9 +25,12 @@ import GdcVerif.Lemmas.T1Model
   * MQ: invariants of the code-shaped model `Model/Mqc.lean` over the generated tables, and the
     byte-level round trip `mq_roundtrip`.
   * T1: facts about the regenerated tables and pass predicates; the code-shaped model `Model/T1.lean` of
-    `Encode` / `DecodeWithBitplane` for the code-block styles without LAZY (tied by `t1-enc` / `t1-dec` correspondence):
-    every context label is in range and neither direction can index-panic. The T1 round trip itself is
-    not proved (searched by the harness for all 64 styles).
+    `Encode` / `DecodeWithBitplane` for the code-block styles without LAZY (tied by `t1-enc` / `t1-dec`
+    correspondence): every context label is in range, neither direction can index-panic (encoder: 28 of the 32
+    styles, TERMALL included), and the block round trip is proved for style 0 (`t1_roundtrip`) and for every
+    RESET / VSC / SEGSYM combination (`t1_roundtrip_styles`).  PTERM, TERMALL and LAZY round trips are searched;
+    the layered API (`EncodeLayered` / `DecodeLayeredWithMode`, all 64 styles) is modelled in `Model/T1Layered.lean`
+    and tied by `t1-lenc` / `t1-ldec` correspondence.
 -/
 namespace C20
 open Gen.J2kColor
@@ -278,18 +284,20 @@ theorem t1_model_contexts (f orient : Nat) :
   ⟨T1.zcCtx_ok f orient, T1.scCtx_ok f, T1.spb_ok f, T1.mrCtx_ok f, rfl, rfl, rfl⟩
 
 /-- **the block encoder never panics**: for any block size, orientation, pass limit, any coefficients
-(`len(coeffs) = w·h`) and any code-block style built from RESET, VSC, PTERM and SEGSYM (no LAZY, no TERMALL), the
-model of `Encode` returns bytes — every access to the padded flag and coefficient arrays, the context tables,
-the 19 MQ contexts and the MQ output buffer is in range -/
+(`len(coeffs) = w·h`) and any code-block style without LAZY in which TERMALL and PTERM are not combined (28 of the 32
+styles without raw passes: RESET, TERMALL with `RestartInitEnc`, VSC, PTERM with `ErtermEnc`, SEGSYM), the model of
+`Encode` returns bytes — every access to the padded flag and coefficient arrays, the context tables, the 19 MQ contexts
+and the MQ output buffer is in range; after a termination `RestartInitEnc` re-establishes the coder invariant (the
+branch `ct = 13` is unreachable) -/
 theorem t1_encode_no_panic (w h orient style : Nat) (coeffs : List Int) (numPasses : Nat)
-    (hlen : coeffs.length = w * h)
-    (hT : Go.and (style : Int) CblkStyleTermAll = 0) (hL : Go.and (style : Int) CblkStyleLazy = 0) :
+    (hlen : coeffs.length = w * h) (hL : Go.and (style : Int) CblkStyleLazy = 0)
+    (hTP : Go.and (style : Int) CblkStyleTermAll ≠ 0 → T1.styPterm style = false) :
     ∃ bytes, T1.encodeBlock w h orient style coeffs numPasses = .ok bytes :=
-  T1.encodeBlock_no_panic w h orient style coeffs numPasses hlen hT hL
+  T1.encodeBlock_no_panic_all w h orient style coeffs numPasses hlen hL hTP
 
-/-- non-vacuity: a 2x2 block, style RESET|PTERM|SEGSYM -/
-example : ([1, 0, 0, -3] : List Int).length = 2 * 2 ∧ Go.and ((50 : Nat) : Int) CblkStyleTermAll = 0 ∧
-    Go.and ((50 : Nat) : Int) CblkStyleLazy = 0 := by decide
+/-- non-vacuity: a 2x2 block, style RESET|TERMALL|SEGSYM -/
+example : ([1, 0, 0, -3] : List Int).length = 2 * 2 ∧ Go.and ((38 : Nat) : Int) CblkStyleLazy = 0 ∧
+    (Go.and ((38 : Nat) : Int) CblkStyleTermAll ≠ 0 → T1.styPterm 38 = false) := by decide
 
 /-- **the block decoder never panics, whatever the input**: for any non-empty byte string, any claimed pass
 count, any claimed top bit-plane and any style, the model of `DecodeWithBitplane` (one codeword segment; it reads
@@ -303,15 +311,38 @@ theorem t1_decode_no_panic (w h orient style numPasses : Nat) (maxBitplane : Int
 /-- non-vacuity -/
 example : ([0xFF, 0x7F, 0x00] : List Nat).length ≠ 0 := by decide
 
-/-- NOT PROVED — the T1 block round trip over the model (style 0, all passes): what the harness searches on the
-real code. Missing: the per-pass lock-step between encoder and decoder pass states (equal flag arrays; decoder
-coefficients = encoder coefficients truncated below the current bit-plane), on top of the step-wise form of
-`mq_roundtrip` (`Mqc.decodeAll_rel`), because the decoder's contexts depend on the bits decoded so far -/
-def t1_roundtrip_FullStatement : Prop :=
-  ∀ (w h orient mb : Nat) (coeffs : List Int), coeffs.length = w * h →
-    (∀ c ∈ coeffs, -2147483648 < c ∧ c < 2147483648) →
-    T1.findMaxBitplane (T1.padBlock w h coeffs) = some mb →
+/-- **the T1 block round trip** (code-block style 0, all passes): for every block size, orientation and coefficients
+in `(-2^31, 2^31)` with top bit-plane `mb`, the model of `Encode` emits bytes from which the model of
+`DecodeWithBitplane(bytes, 3·(mb+1) − 2, mb)` returns exactly the coefficients.  Proof: encoder and decoder passes
+in lock-step (equal flag arrays; decoder coefficient = encoder coefficient truncated below the current bit-plane),
+every coding decision being one MQ decision whose bit the decoder recovers by `Mqc.step_rel` -/
+theorem t1_roundtrip (w h orient mb : Nat) (coeffs : List Int) (hlen : coeffs.length = w * h)
+    (hbnd : ∀ c ∈ coeffs, -2147483648 < c ∧ c < 2147483648)
+    (hmb : T1.findMaxBitplane (T1.padBlock w h coeffs) = some mb) :
     ∃ bytes, T1.encodeBlock w h orient 0 coeffs (3 * (mb + 1) - 2) = .ok bytes ∧
-      T1.decodeBlock w h orient 0 (3 * (mb + 1) - 2) mb bytes = .ok coeffs
+      T1.decodeBlock w h orient 0 (3 * (mb + 1) - 2) mb bytes = .ok coeffs := by
+  rw [show 3 * (mb + 1) - 2 = 3 * mb + 1 by omega]
+  exact T1.t1_roundtrip w h orient mb coeffs hlen (fun c hc => by have := hbnd c hc; omega) hmb
+
+/-- non-vacuity: a 2x2 block with top bit-plane 1 -/
+example : ([1, 0, 0, -3] : List Int).length = 2 * 2 ∧ (∀ c ∈ ([1, 0, 0, -3] : List Int), -2147483648 < c ∧ c < 2147483648) ∧
+    T1.findMaxBitplane (T1.padBlock 2 2 [1, 0, 0, -3]) = some 1 := by decide
+
+/-- **the T1 block round trip for the styles built from RESET, VSC and SEGSYM** (any combination; no LAZY, TERMALL,
+PTERM; the VSC bit is not read by the code): as `t1_roundtrip`, with the segmentation symbol after every cleanup pass
+and the context reset after every pass on both sides -/
+theorem t1_roundtrip_styles (w h orient style mb : Nat) (coeffs : List Int) (hlen : coeffs.length = w * h)
+    (hbnd : ∀ c ∈ coeffs, -2147483648 < c ∧ c < 2147483648)
+    (hmb : T1.findMaxBitplane (T1.padBlock w h coeffs) = some mb)
+    (hT : Go.and (style : Int) CblkStyleTermAll = 0) (hL : Go.and (style : Int) CblkStyleLazy = 0)
+    (hP : T1.styPterm style = false) :
+    ∃ bytes, T1.encodeBlock w h orient style coeffs (3 * (mb + 1) - 2) = .ok bytes ∧
+      T1.decodeBlock w h orient style (3 * (mb + 1) - 2) mb bytes = .ok coeffs := by
+  rw [show 3 * (mb + 1) - 2 = 3 * mb + 1 by omega]
+  exact T1.t1_roundtrip_styles w h orient style mb coeffs hlen (fun c hc => by have := hbnd c hc; omega) hmb hT hL hP
+
+/-- non-vacuity: style RESET|VSC|SEGSYM -/
+example : Go.and ((42 : Nat) : Int) CblkStyleTermAll = 0 ∧ Go.and ((42 : Nat) : Int) CblkStyleLazy = 0 ∧
+    T1.styPterm 42 = false := by decide
 
 end C20
